@@ -476,7 +476,7 @@ def gcStep (acc : Ctx × Option Nat) (k : Nat) : Ctx × Option Nat :=
     let s := acc.1.seg.get sl
     if s.deleted ∨ s.copied then
       (acc.1.withSeg (acc.1.seg.freeSlot sl),
-       if acc.2 = some sl then (match s.prev with | some p => some p | none => s.next) else acc.2)
+       if acc.2 = some sl then s.prev.or s.next else acc.2)
     else acc
   | none => acc
 
